@@ -876,8 +876,13 @@ class Buffer:
                 if disable_wrap_around:
                     return
             else:
-                index = min(
-                    completions_count - 1, self.complete_state.complete_index + count
+                # (Clamp on both sides: the count can be negative, Meta-minus.)
+                index = max(
+                    0,
+                    min(
+                        completions_count - 1,
+                        self.complete_state.complete_index + count,
+                    ),
                 )
             self.go_to_completion(index)
 
@@ -899,7 +904,11 @@ class Buffer:
             elif self.complete_state.complete_index is None:
                 index = len(self.complete_state.completions) - 1
             else:
-                index = max(0, self.complete_state.complete_index - count)
+                # (Clamp on both sides: the count can be negative, Meta-minus.)
+                index = min(
+                    len(self.complete_state.completions) - 1,
+                    max(0, self.complete_state.complete_index - count),
+                )
 
             self.go_to_completion(index)
 
